@@ -38,7 +38,7 @@ func init() {
 			return []string{"release", "386"}
 		},
 		Exhaustive: nil,
-		Required:   []string{"cold-start/all-ones-path-first", "field/l=0", "field/l=h", "field/h=32", "field/h=0", "order/ancestor-descendant", "order/left-right-subtrees", "order/equal", "order/h>=13", "pathstr/retained-results-reread", "field/relatives-in-consecutive-calls"},
+		Required:   []string{"long-run/calls>=100000-per-function", "cold-start/all-ones-path-first", "field/l=0", "field/l=h", "field/h=32", "field/h=0", "order/ancestor-descendant", "order/left-right-subtrees", "order/equal", "order/h>=13", "pathstr/retained-results-reread", "field/relatives-in-consecutive-calls"},
 		Families: func(c *mon.Config) []mon.Family {
 			hp := c.Pick(8, 12)
 			return []mon.Family{
@@ -47,6 +47,7 @@ func init() {
 				{Name: "fields-large", Env: 10, N: 20 * c.Pick(100, 50000), Run: c10FieldsLarge},
 				{Name: "order-all-pairs", N: (1 << uint(hp+1)) * 2, Run: func(w *mon.W, idx int) { c10OrderAll(w, idx, hp) }},
 				{Name: "order-sampled", Env: 10, N: 20 * c.Pick(250, 100000), Run: c10OrderSampled},
+				lrFamily(c10LongRun),
 			}
 		},
 	})
